@@ -102,7 +102,7 @@ def check(fb, ctx):
     for kind, (lp, rp, desc) in {
         "TooManyIterations": (lambda n: hirq.is_lid(n, counter_ids), lambda n: field_of(n, "limits", "max_iterations"), "iteration budget"),
         "TooManyFacts": (lambda n: n.get("k") == "mcall" and (n.get("def") or {}).get("path", "").endswith("FactSet::len") and field_of(n["recv"], "self", "facts"), lambda n: field_of(n, "limits", "max_facts"), "fact budget on the merged world"),
-        "Timeout": (lambda n: hirq.is_lid(n, now_ids), lambda n: hirq.is_lid(n, deadline_ids), "time budget"),
+        "Timeout": (lambda n: hirq.is_lid(n, now_ids) or bool(now_call(n)), lambda n: hirq.is_lid(n, deadline_ids), "time budget"),
     }.items():
         if kind not in tests:
             ctx.fail("BACKEDGE", f"{desc} test in the loop", f"BACKEDGE|{kind}", f"no top-level `if .. {{ break Err(RunLimit::{kind}) }}` in the fixpoint loop", where)
